@@ -310,6 +310,7 @@ Section WithMac.
     destruct (1 <? minv)%Z eqn:E1; [apply Z.ltb_lt in E1; lia|].
     cbn [Z.eqb Pos.eqb]. rewrite <- Ex. unfold decode_v1.
     rewrite split_v1 by assumption. rewrite bytes_eqb_refl. cbn [negb].
+    rewrite is_digits_dec_Z by lia. cbn [negb].
     rewrite py_int_dec_Z.
     destruct (t <? now - maxage)%Z eqn:E2; [apply Z.ltb_lt in E2; lia|].
     destruct (now + 31 * 86400 <? t)%Z eqn:E3; [apply Z.ltb_lt in E3; lia|].
@@ -324,20 +325,61 @@ Section WithMac.
       get_version x = 1%Z ->
       exists k p0 p1 t,
         s = SStr k /\ x = p0 ++ 124 :: p1 ++ 124 :: mac1 k (name ++ p0 ++ p1) /\
-        py_int p1 = Some t /\ (now - maxage <= t <= now + 31 * 86400)%Z /\
-        starts_with_zero p1 = false /\ b64decode p0 = Some v /\ (minv <= 1)%Z.
+        Forall (fun c => c <> 124) p0 /\
+        p1 = dec_Z t /\ (1 <= t)%Z /\ (now - maxage <= t <= now + 31 * 86400)%Z /\
+        b64decode p0 = Some v /\ (minv <= 1)%Z.
   Proof.
     intros s name x maxage now minv v H Hv.
     destruct (decode_some_cases _ _ _ _ _ _ _ H) as [[_ [Hm [k [-> H1]]]]|[H2 _]]; [|lia].
     unfold decode_v1 in H1.
     destruct (split 124 x) as [|p0 [|p1 [|sg [|? ?]]]] eqn:Es; try discriminate.
     destruct (bytes_eqb sg _) eqn:Eg; cbn [negb] in H1; [|discriminate].
+    destruct (is_digits p1) eqn:Ed; cbn [negb] in H1; [|discriminate].
     destruct (py_int p1) as [t|] eqn:Et; [|discriminate].
     destruct (t <? now - maxage)%Z eqn:E2; [discriminate|]. apply Z.ltb_ge in E2.
     destruct (now + 31 * 86400 <? t)%Z eqn:E3; [discriminate|]. apply Z.ltb_ge in E3.
     destruct (starts_with_zero p1) eqn:Ez; [discriminate|].
-    apply bytes_eqb_eq in Eg. apply split3_inv in Es as [Hx _].
+    destruct (accepted_ts_canonical p1 t Ed Ez Et) as [_ [Hp1 [Ht1 _]]].
+    apply bytes_eqb_eq in Eg. apply split3_inv in Es as [Hx [F0 _]].
     exists k, p0, p1, t. rewrite <- Eg. repeat split; auto.
+  Qed.
+
+  (* ... and when the MACed text was issued for THIS name (unforgeability premise), the only
+     accepted strings are the issued one (returning its value) or digit shifts between payload
+     and timestamp, which move the timestamp by more than a factor of two *)
+  Theorem soundness_v1_same_name : forall s name x maxage now minv v,
+      decode mac1 mac2 s name x maxage now minv = Ok (Some v) ->
+      get_version x = 1%Z ->
+      (forall k p0 p1, x = p0 ++ 124 :: p1 ++ 124 :: mac1 k (name ++ p0 ++ p1) ->
+                       exists v0 t0, Forall isbyte v0 /\ (1 <= t0)%Z /\ p0 ++ p1 = b64encode v0 ++ dec_Z t0) ->
+      exists v0 t0 t,
+        Forall isbyte v0 /\ (1 <= t0)%Z /\ (now - maxage <= t <= now + 31 * 86400)%Z /\ (minv <= 1)%Z /\
+        ((create mac1 mac2 s name v0 1 t0 None = Ok x /\ v = v0 /\ t = t0)
+         \/ (2 * t0 < t)%Z \/ (2 * t < t0)%Z).
+  Proof.
+    intros s name x maxage now minv v H Hv Hunf.
+    destruct (soundness_v1 _ _ _ _ _ _ _ H Hv) as [k [p0 [p1 [t [-> [Hx [F0 [Hp1 [Ht [Hw [Hb Hm]]]]]]]]]]].
+    destruct (Hunf k p0 p1 Hx) as [v0 [t0 [Hv0 [Ht0 Hcat]]]].
+    exists v0, t0, t. repeat split; try assumption; try lia.
+    assert (C1 : canonical p1).
+    { rewrite Hp1. unfold dec_Z. destruct (t <? 0)%Z eqn:E; [apply Z.ltb_lt in E; lia|].
+      apply dec_N_canonical. lia. }
+    assert (C0 : canonical (dec_Z t0)).
+    { unfold dec_Z. destruct (t0 <? 0)%Z eqn:E; [apply Z.ltb_lt in E; lia|].
+      apply dec_N_canonical. lia. }
+    assert (D1 : digits_to_N 0 p1 = Z.to_N t).
+    { rewrite Hp1. unfold dec_Z. destruct (t <? 0)%Z eqn:E; [apply Z.ltb_lt in E; lia|].
+      apply dec_N_spec. }
+    assert (D0 : digits_to_N 0 (dec_Z t0) = Z.to_N t0).
+    { unfold dec_Z. destruct (t0 <? 0)%Z eqn:E; [apply Z.ltb_lt in E; lia|]. apply dec_N_spec. }
+    destruct (resplit_cases _ _ _ _ C1 C0 Hcat) as [[E0 E1]|[L|L]].
+    - left. assert (t = t0).
+      { rewrite E1 in D1. rewrite D0 in D1. lia. }
+      subst t. split; [|split; [|reflexivity]].
+      + unfold create. cbn [Z.eqb Pos.eqb]. rewrite Hx, E0, <- Hp1. reflexivity.
+      + rewrite E0 in Hb. rewrite b64_roundtrip in Hb by assumption. inversion Hb. reflexivity.
+    - right. left. rewrite D0, D1 in L. lia.
+    - right. right. rewrite D0, D1 in L. lia.
   Qed.
 
   (* a key-version dictionary never accepts a format-1 value (and does not raise) *)
@@ -394,7 +436,7 @@ Section WithMac.
     rewrite split_v1 by assumption.
     replace ((name ++ b1) ++ b2 ++ dec_Z t) with (name ++ b64encode w ++ dec_Z t)
       by (rewrite Hb, <- !app_assoc; reflexivity).
-    rewrite bytes_eqb_refl. cbn [negb]. rewrite py_int_dec_Z.
+    rewrite bytes_eqb_refl. cbn [negb]. rewrite is_digits_dec_Z by lia. cbn [negb]. rewrite py_int_dec_Z.
     destruct (t <? now - maxage)%Z eqn:E2; [apply Z.ltb_lt in E2; lia|].
     destruct (now + 31 * 86400 <? t)%Z eqn:E3; [apply Z.ltb_lt in E3; lia|].
     rewrite dec_Z_no_leading_zero by assumption. rewrite Hdec. reflexivity.
